@@ -10,6 +10,6 @@ Extraction "wirex.ml"
   Proto.ser_slim Proto.parse_slim Proto.wf_slim Proto.size_slim Proto.empty_slim
   Semver.is_compatible Semver.specs_in_fragment
   Frame.unmarshal Frame.marshal Frame.read_header
-  Instance.i_inner Instance.i_vars Instance.i_levels
+  Instance.i_inner Instance.i_vars Instance.i_levels Instance.inner_state
   Wire.fresh_gen Wire.step_gen
   Wire.compat_gen Wire.cur_gen Wire.marshal_gen Wire.unmarshal_gen Wire.marshal_size.
